@@ -154,6 +154,10 @@ def run(F, ck, tier):
     E.check('R20.4', dict(id='dummy.proof.pis', fn='recursion::dummy_circuit::dummy_proof', kind='call', callee='set_target',
                           src=['F:ProverOnlyCircuitData.public_inputs', 'p:nonzero_public_inputs'], ctx={'loop': ['F:CommonCircuitData.num_public_inputs'], 'uncond': True}, whole=True,
                           why='every public input of the dummy proof is assigned'))
+    # R20.6 conditional / cyclic / dummy routines are parameterised by the INNER circuit (shared with R06.6)
+    ck.rule('R20.6', 'the conditional, cyclic and dummy-proof routines take every configuration (and every size derived from one) from the inner circuit\'s common data, never from the outer builder\'s own configuration')
+    from . import c06, c11
+    c06.inner_config_source(F, c11._Rename(ck, 'R20.6'))
     ck.decided += ['selection symmetric in every field', 'same condition/order for proof and verifier data', 'cyclic verifier data connected, registered, parsed and compared field by field', 'dummy circuit asserts common data']
     ck.undecided += ['validity of dummy proofs and of each chain link (behavioural)', 'acceptance iff selected proof valid']
     return 'Decides structural necessary conditions of C20: field-wise symmetric selection, consistent branches, cyclic verifier-data binding with one layout, dummy circuit assertion. Behavioural clauses are not decided.'
